@@ -346,7 +346,7 @@ Definition recls_case (f : xcls -> xcls) (c : anycase) : anycase :=
   match c with
   | CFut k p o ops => CFut k p o (map (recls_op f) ops)
   | CTask ph fin ops => CTask (map (recls_phase f) ph) fin (map (recls_op f) ops)
-  | CBatch its fin ops => CBatch (map (recls_ispec f) its) fin (map (recls_bop f) ops)
+  | CBatch its fin cs ops => CBatch (map (recls_ispec f) its) fin cs (map (recls_bop f) ops)
   end.
 
 Local Arguments tcomplete : simpl nomatch.
@@ -521,7 +521,7 @@ Definition precls_case (f : xcls -> xcls) (c : anycase) : anycase :=
   match c with
   | CFut k p o ops => CFut k (map (recls_pout f) p) o ops
   | CTask ph fin ops => CTask ph (recls_pout f fin) ops
-  | CBatch its fin ops => CBatch its (recls_pout f fin) ops
+  | CBatch its fin cs ops => CBatch its (recls_pout f fin) cs ops
   end.
 
 Definition generator_body (c : anycase) : bool :=
@@ -530,7 +530,7 @@ Definition generator_body (c : anycase) : bool :=
 Lemma any_provider_class_irrelevant f c :
   (generator_body c = true -> gen_cls_ok f) -> run_any (precls_case f c) = run_any c.
 Proof.
-  intros G. destruct c as [k p o ops|ph fin ops|its fin ops]; cbn [run_any precls_case].
+  intros G. destruct c as [k p o ops|ph fin ops|its fin cs ops]; cbn [run_any precls_case].
   - rewrite provider_class_irrelevant; auto. intros ->. apply G. reflexivity.
   - rewrite task_provider_class_irrelevant; auto.
   - now rewrite batch_provider_class_irrelevant.
